@@ -74,8 +74,22 @@ pub fn cli_scenario(idx: u64, t: &mut Tape) -> CliScn {
     crate::gen::set_nasty_strings(false);
     crate::gen::set_tame_keys(false);
     let rt_seed = t.full_u64(CFG);
-    let world = world_from(&bp, &ports, rt_seed);
+    let mut world = world_from(&bp, &ports, rt_seed);
     let mut args: Vec<String> = vec!["query".into(), "--game".into(), game_id.into(), "--ip".into(), SERVER_IP.to_string()];
+    // one valid invocation in eight names the host instead of giving its address: "localhost", resolved by
+    // the tool through the operating system's resolver; whatever it resolves to is routed to the simulated host
+    if invalid_kind.is_none() && game_id != "eco" && t.draw(CFG, 8) == 0 {
+        use std::net::ToSocketAddrs;
+        if let Ok(addrs) = ("localhost", 0).to_socket_addrs() {
+            let ips: Vec<std::net::IpAddr> = addrs.map(|a| a.ip()).collect();
+            if !ips.is_empty() {
+                for ip in ips {
+                    world.ip_alias.push((ip, SERVER_IP));
+                }
+                args[4] = "localhost".into();
+            }
+        }
+    }
     if let Some(p) = port {
         args.extend(["--port".to_string(), p.to_string()]);
     }
@@ -181,7 +195,14 @@ impl Prop for C19 {
         let scn = cli_scenario(idx, &mut t);
         let tape_snapshot = t.data.clone();
         // ---- in-harness reference run of the same query on the same world
-        let call = Call { entry: Entry::Generic { game_id: scn.game_id, extra: None, level: 2 }, ip: SERVER_IP, port: scn.port, default_port: 0, timeout: None };
+        // (naming the host makes the tool pass extra request settings that carry the name, which also
+        // replace the definition's own gather settings: the reference call does the same)
+        let named = scn.args.get(4).is_some_and(|a| a == "localhost");
+        let extra = named.then(|| gamedig::protocols::types::ExtraRequestSettings::default().set_hostname("localhost".to_string()));
+        if named {
+            out.probe("host_given_by_name");
+        }
+        let call = Call { entry: Entry::Generic { game_id: scn.game_id, extra, level: 2 }, ip: SERVER_IP, port: scn.port, default_port: 0, timeout: None };
         let reference = run_call(scn.world, &call);
         out.absorb(&reference.world);
         // ---- the real CLI in its own process
